@@ -1,0 +1,22 @@
+// +build verif
+// +build amd64
+
+package sleep
+
+import "sync/atomic"
+
+// commitSleep is the pure-Go body of commit_noasm.go, used by the verif build
+// because commit_amd64.s no longer assembles on current toolchains.
+func commitSleep(g uintptr, waitingG *uintptr) bool {
+	for {
+		// Check if the wait was aborted.
+		if atomic.LoadUintptr(waitingG) == 0 {
+			return false
+		}
+
+		// Try to store the G so that wakers know who to wake.
+		if atomic.CompareAndSwapUintptr(waitingG, preparingG, g) {
+			return true
+		}
+	}
+}
